@@ -20,6 +20,12 @@ CHECKS = {
     "C03": dict(engine="E1", cat="model_checking",
                 technique="exhaustive enumeration of (wrapper shape x leaf kind) fields x adversarial resolver-value universe (values, singletons, pairs); structural conformance invariant checked on every execution of the real engine",
                 text="140 fields (14 wrapper shapes, thorough 18, x 10 leaf kinds incl. enum, custom scalar, object, interface, union) x 80-value adversarial universe, every singleton list and every pair from a 12-value core for list shapes. Invariant derived from schema model + selection: never raises, exactly the selected keys, lists where declared, no null at non-null, Int a 32-bit int, Float finite, String/ID str, Boolean bool, enum among declared values, abstract completed as a possible type, JSON-serialisable, every manufactured null explained by an error and no error without a null."),
+    "C04": dict(engine="E1+E5", cat="model_checking",
+                technique="exhaustive enumeration of declared variable type x default x raw JSON value (every position) x presence; each request run on the real engine and compared with the reference CoerceVariableValues",
+                text="10 base types (5 built-in scalars, custom scalar, enum, 3 input objects incl. recursive/defaulted) x 14 wrapper shapes (thorough 18, depth 3) x default in {none, valid, null, invalid} x presence {absent, null, each value of a per-type universe with right/wrong/borderline kinds at every position} + undeclared extras + all ok/bad/null/absent combinations of three variables. Oracle: refused before any resolver with every offending variable named, xor the resolver observes exactly the spec-coerced value (type-sensitive comparison); don't-care policies DC1/DC2 tried."),
+    "C05": dict(engine="E1+E5", cat="model_checking",
+                technique="exhaustive enumeration of argument type x way of supplying (10 ways) x value x position (field / directive / @skip,@include); absolute oracle (reference CoerceArgumentValues) and relational oracle (all spellings of a value agree)",
+                text="Same type and value universes as C04; every value is spelled as literal, variable, variable inside list literal, variable inside object literal, variable default, schema default, omitted, null literal, null/absent variable, nullable-variable-with-default into a non-null position (top level and nested). The dictionary observed by the real resolver / directive hook is compared with the reference dictionary and with the dictionaries of the other spellings; ill-typed values must never be delivered."),
     "C10": dict(engine="E1+E5", cat="model_checking",
                 technique="exhaustive enumeration of 8 scalars x 3 coercion directions x boundary-value universe on the real scalar objects and through a real engine; four algebraic laws checked on every triple against reference tables",
                 text="Every (scalar, direction, value) triple over 8 built-in scalars, result/input/literal directions and a 140-value boundary universe (0, +-1, +-2^31, +-2^53, huge ints, integral/non-integral floats, NaN, +-inf, denormals, numeric/blank/unicode strings, bools, containers, temporal strings and datetimes), on the scalar objects attached to a cooked schema and through echo fields of a real engine (resolver return, literal spelling, variable spelling). Laws: L1 result fails or yields the wire type denoting the same value; L2 input accepts exactly the spec kinds (reference tables in vf/model/coerce.py); L3 literal == variable; L4 idempotence and temporal round trips."),
